@@ -26,6 +26,7 @@ import (
 	"fmt"
 	"math/rand"
 	"net"
+	"os"
 	"runtime"
 	"sort"
 	"strconv"
@@ -75,7 +76,7 @@ func (n *vfC19Net) listen() (net.PacketConn, error) {
 	failed := n.fail != nil && n.fail(idx)
 	var s *vfC19Sock
 	if !failed {
-		s = &vfC19Sock{net: n, id: idx, closeCh: make(chan struct{}), inbox: make(chan []byte, 64)}
+		s = &vfC19Sock{net: n, id: idx, closeCh: make(chan struct{}), dlCh: make(chan struct{}), inbox: make(chan []byte, 64)}
 		n.socks = append(n.socks, s)
 	}
 	n.attempts = append(n.attempts, vfC19Attempt{Idx: idx, T: time.Now(), OK: !failed})
@@ -153,30 +154,77 @@ type vfC19Sock struct {
 	closeCh    chan struct{}
 	inbox      chan []byte
 	setCalls   int
-	lastRDL    time.Time
-	lastWDL    time.Time
+	rdl        time.Time     // read deadline, honoured on the (virtual) clock like a UDP socket
+	dlCh       chan struct{} // closed and replaced whenever the read deadline changes (wakes blocked readers)
+	lastWDL    time.Time     // write deadline: recorded only (WriteTo never blocks)
+	timeouts   int
 	rbuf, wbuf int
+}
+
+func vfC19TimeoutErr() error {
+	return &net.OpError{Op: "read", Net: "udp", Err: os.ErrDeadlineExceeded}
 }
 
 func (s *vfC19Sock) isClosed() bool { s.mu.Lock(); defer s.mu.Unlock(); return s.closed }
 
+// ReadFrom behaves like a UDP socket's: closed -> permanent error; read deadline already passed ->
+// timeout error at once (even if data is pending); otherwise block until a packet, Close, the
+// deadline, or a change of the deadline.
 func (s *vfC19Sock) ReadFrom(b []byte) (int, net.Addr, error) {
-	select {
-	case <-s.closeCh:
-		return 0, nil, net.ErrClosed
-	default:
-	}
-	select {
-	case p := <-s.inbox:
-		select {
-		case <-s.closeCh: // a closed socket delivers nothing
+	for {
+		s.mu.Lock()
+		closed, dl, wake := s.closed, s.rdl, s.dlCh
+		s.mu.Unlock()
+		if closed {
 			return 0, nil, net.ErrClosed
-		default:
 		}
-		return copy(b, p), &net.UDPAddr{IP: net.IPv4(10, 19, 19, 1), Port: 1}, nil
-	case <-s.closeCh:
-		return 0, nil, net.ErrClosed
+		var timerC <-chan time.Time
+		var timer *time.Timer
+		if !dl.IsZero() {
+			left := time.Until(dl)
+			if left <= 0 {
+				s.mu.Lock()
+				s.timeouts++
+				s.mu.Unlock()
+				return 0, nil, vfC19TimeoutErr()
+			}
+			timer = time.NewTimer(left)
+			timerC = timer.C
+		}
+		select {
+		case p := <-s.inbox:
+			if timer != nil {
+				timer.Stop()
+			}
+			select {
+			case <-s.closeCh: // a closed socket delivers nothing
+				return 0, nil, net.ErrClosed
+			default:
+			}
+			return copy(b, p), &net.UDPAddr{IP: net.IPv4(10, 19, 19, 1), Port: 1}, nil
+		case <-s.closeCh:
+			if timer != nil {
+				timer.Stop()
+			}
+			return 0, nil, net.ErrClosed
+		case <-timerC:
+			s.mu.Lock()
+			s.timeouts++
+			s.mu.Unlock()
+			return 0, nil, vfC19TimeoutErr()
+		case <-wake: // deadline changed: evaluate again
+			if timer != nil {
+				timer.Stop()
+			}
+		}
 	}
+}
+
+// setRDL must be called with s.mu held.
+func (s *vfC19Sock) setRDL(t time.Time) {
+	s.rdl = t
+	close(s.dlCh)
+	s.dlCh = make(chan struct{})
 }
 
 // inject queues an inbound packet; false if the socket is closed (a closed socket receives nothing).
@@ -248,13 +296,14 @@ func (s *vfC19Sock) setErr() error {
 func (s *vfC19Sock) SetDeadline(t time.Time) error {
 	s.mu.Lock()
 	defer s.mu.Unlock()
-	s.lastRDL, s.lastWDL = t, t
+	s.lastWDL = t
+	s.setRDL(t)
 	return s.setErr()
 }
 func (s *vfC19Sock) SetReadDeadline(t time.Time) error {
 	s.mu.Lock()
 	defer s.mu.Unlock()
-	s.lastRDL = t
+	s.setRDL(t)
 	return s.setErr()
 }
 func (s *vfC19Sock) SetWriteDeadline(t time.Time) error {
@@ -279,10 +328,10 @@ func (s *vfC19Sock) SetWriteBuffer(n int) error {
 // ---------------------------------------------------------------------------- port sets (by construction)
 
 type vfC19PortCfg struct {
-	Host  string   // host part given to ResolveUDPHopAddr
-	Expr  string   // port expression
-	Rng   [][2]int // the ranges the expression was built from (expected set = their union)
-	ports  []bool // indexed by port
+	Host   string   // host part given to ResolveUDPHopAddr
+	Expr   string   // port expression
+	Rng    [][2]int // the ranges the expression was built from (expected set = their union)
+	ports  []bool   // indexed by port
 	nports int
 	ip     net.IP
 }
@@ -449,6 +498,7 @@ type vfC19Hist struct {
 	ReaderAtClose bool   `json:"reader_blocked_at_close"`
 	CloseAtHop    bool   `json:"close_at_instant_of_next_hop"`
 	MidRounds     bool   `json:"mid_interval_rounds"`
+	DeadlineMode  int    `json:"read_deadline_steps"` // 0 none, 1 after about a third of the hop attempts, 2 after every hop attempt
 	VSeed         int64  `json:"variant_seed"`
 
 	pc   *vfC19PortCfg
@@ -462,15 +512,17 @@ type vfC19ReadRes struct {
 
 // vfC19Run drives one history inside a bubble. All verdicts are k.Violation calls.
 type vfC19Run struct {
-	k    *vfKit
-	h    *vfC19Hist
-	net  *vfC19Net
-	u    *udpHopPacketConn
-	r    *rand.Rand
-	seq  int
-	bad  bool // a violation was recorded for this history
-	rd   *vfC19Reader
-	effI [2]time.Duration
+	k       *vfKit
+	h       *vfC19Hist
+	net     *vfC19Net
+	u       *udpHopPacketConn
+	r       *rand.Rand
+	seq     int
+	bad     bool // a violation was recorded for this history
+	rd      *vfC19Reader
+	far     time.Time
+	dlSteps int
+	effI    [2]time.Duration
 }
 
 func (x *vfC19Run) viol(key, format string, args ...any) {
@@ -486,17 +538,33 @@ type vfC19Reader struct {
 	res  chan vfC19ReadRes
 	stop atomic.Bool
 	busy atomic.Bool
+	// timeout results are only counted (a deadline step produces > 1000 of them); everything
+	// else is passed on through res
+	timeouts atomic.Int64
+	overflow atomic.Int64
 }
 
 func (rd *vfC19Reader) loop() {
+	buf := make([]byte, 256)
 	for n := range rd.req {
 		for i := 0; i < n; i++ {
-			buf := make([]byte, 256)
 			m, _, err := rd.u.ReadFrom(buf)
 			if rd.stop.Load() {
 				break
 			}
-			rd.res <- vfC19ReadRes{data: buf[:m], err: err}
+			if vfC19IsTimeout(err) {
+				rd.timeouts.Add(1)
+				continue
+			}
+			var data []byte
+			if m > 0 {
+				data = append(data, buf[:m]...)
+			}
+			select {
+			case rd.res <- vfC19ReadRes{data: data, err: err}:
+			default:
+				rd.overflow.Add(1)
+			}
 		}
 		rd.busy.Store(false)
 	}
@@ -508,7 +576,15 @@ func (rd *vfC19Reader) start(n int) {
 	rd.req <- n
 }
 
+// drain returns the results since the last drain; timeout results come back as one entry each
+// (with a shared error value), after the others.
 func (rd *vfC19Reader) drain() (res []vfC19ReadRes) {
+	defer func() {
+		te := vfC19TimeoutErr()
+		for n := rd.timeouts.Swap(0); n > 0; n-- {
+			res = append(res, vfC19ReadRes{err: te})
+		}
+	}()
 	for {
 		select {
 		case r := <-rd.res:
@@ -670,6 +746,119 @@ func (x *vfC19Run) round(stage string) {
 	}
 }
 
+func (x *vfC19Run) wantDeadlineStep() bool {
+	if x.dlSteps >= 8 { // each step costs > 1000 reads (the receive loops fill the queue with timeout results)
+		return false
+	}
+	switch x.h.DeadlineMode {
+	case 1:
+		return x.r.Intn(6) == 0
+	case 2:
+		return true
+	}
+	return false
+}
+
+func vfC19IsTimeout(err error) bool {
+	var ne net.Error
+	return err != nil && errors.As(err, &ne) && ne.Timeout()
+}
+
+// deadlineStep lets a read deadline expire between two hops and then extends/clears it:
+//   - a ReadFrom with an expired deadline must fail with a timeout error (net.Error, Timeout()),
+//     without blocking and without inventing data;
+//   - once the deadline is extended or cleared and the stale timeout results have been read, the
+//     connection must work as before: packets arriving on the previous AND the current socket
+//     are delivered, writes leave via the newest socket (x.round).
+//
+// It may spend at most maxSleep of virtual time (returns what it spent). Packets are injected only
+// after the caller has read the queue empty, so the documented "queue full -> drop" path is not
+// involved in any verdict here.
+func (x *vfC19Run) deadlineStep(stage string, maxSleep time.Duration) (spent time.Duration) {
+	k, u := x.k, x.u
+	k.Count("ev_deadline_steps", 1)
+	x.dlSteps++
+	stage += " / read deadline"
+	set := func(t time.Time) {
+		var err error
+		if x.r.Intn(3) == 0 {
+			err = u.SetDeadline(t)
+		} else {
+			err = u.SetReadDeadline(t)
+		}
+		if err != nil {
+			x.viol("udphop:set-deadline-failed-while-open", "%s: setting the deadline on an open hop connection failed: %v", stage, err)
+		}
+	}
+	judge := func(res []vfC19ReadRes, what string) (timeouts int) {
+		for _, r := range res {
+			switch {
+			case vfC19IsTimeout(r.err):
+				timeouts++
+			case r.err != nil:
+				x.viol("udphop:read-error-while-open", "%s: %s: ReadFrom failed with %v (not a timeout) on an open connection", stage, what, r.err)
+			default:
+				x.viol("udphop:unexpected-packet", "%s: %s: ReadFrom returned %q although nothing was injected", stage, what, r.data)
+			}
+		}
+		return
+	}
+	if maxSleep >= 1 && x.r.Intn(3) != 0 {
+		// a reader is blocked on the empty queue, the deadline lies ahead and expires
+		d := 1 + time.Duration(x.r.Int63n(int64(maxSleep)))
+		x.rd.start(1)
+		synctest.Wait()
+		set(time.Now().Add(d))
+		synctest.Wait()
+		if !x.rd.busy.Load() {
+			judge(x.rd.drain(), "before the deadline")
+			x.viol("udphop:read-returned-without-packet", "%s: ReadFrom returned %v before its deadline although nothing was received", stage, d)
+		}
+		time.Sleep(d)
+		spent = d
+		synctest.Wait()
+		if x.rd.busy.Load() {
+			x.viol("udphop:expired-deadline-read-does-not-time-out", "%s: a ReadFrom blocked since before the deadline is still blocked after the read deadline (+%v) passed", stage, d)
+			x.rd.abort()
+			x.rd.drain()
+		} else if judge(x.rd.drain(), "at the deadline") == 1 {
+			k.Count("ev_blocked_read_timed_out", 1)
+		}
+	} else {
+		// deadline already in the past when it is set (what quic-go does to unblock its reader)
+		set(time.Now().Add(-time.Duration(1 + x.r.Int63n(int64(time.Second)))))
+		synctest.Wait()
+	}
+	// further reads with the expired deadline: timeout errors, never blocking
+	n := 1 + x.r.Intn(3)
+	res, blocked := x.readN(n)
+	if blocked {
+		x.viol("udphop:expired-deadline-read-does-not-time-out", "%s: ReadFrom blocks although the read deadline has passed (read #%d)", stage, len(res)+1)
+	}
+	k.Count("ev_expired_reads_timed_out", int64(judge(res, "with an expired deadline")))
+	// extend or clear
+	if x.r.Intn(2) == 0 {
+		set(time.Time{})
+	} else {
+		set(x.far)
+	}
+	synctest.Wait()
+	// the caller reads on: stale timeout results are allowed, then the read must block (nothing was injected)
+	const maxReads = 6000 // > queue size + sockets; a connection that still reports timeouts after that is not working
+	x.rd.start(maxReads)
+	synctest.Wait()
+	if x.rd.busy.Load() {
+		x.rd.abort()
+		k.Count("stale_timeouts_after_extension", int64(judge(x.rd.drain(), "after the deadline was extended")))
+	} else {
+		judge(x.rd.drain(), "after the deadline was extended")
+		x.viol("udphop:timeouts-after-deadline-extended", "%s: %d consecutive reads failed after the read deadline was extended/cleared; the connection does not resume", stage, maxReads)
+		return
+	}
+	x.round(stage + " expired, then extended")
+	return
+}
+
 func (x *vfC19Run) run(t *testing.T) {
 	k, h := x.k, x.h
 	x.r = rand.New(rand.NewSource(h.VSeed))
@@ -685,15 +874,24 @@ func (x *vfC19Run) run(t *testing.T) {
 	}
 	x.u = pcn.(*udpHopPacketConn)
 	<-x.net.hopCh // creation #0
-	x.rd = &vfC19Reader{u: x.u, req: make(chan int), res: make(chan vfC19ReadRes, 8192)}
+	x.rd = &vfC19Reader{u: x.u, req: make(chan int), res: make(chan vfC19ReadRes, 1024)}
 	go x.rd.loop()
 	min, max := x.effI[0], x.effI[1]
 	defer x.cleanup()
 
+	// far: a read deadline that cannot expire before the history is over
+	x.far = t0.Add(time.Duration(h.Hops+8)*max + time.Hour)
 	synctest.Wait()
 	x.round("before the first hop")
 	last := t0
 	sleptInInterval := time.Duration(0)
+	if x.wantDeadlineStep() {
+		sleptInInterval += x.deadlineStep("before the first hop", (min-1)/2)
+		if got := len(x.net.attemptsCopy()); got != 1 {
+			x.viol("udphop:hop-gap-outside-interval", "a hop attempt happened %v after construction, before the minimum interval %v", sleptInInterval, min)
+			return
+		}
+	}
 	for hop := 1; hop <= h.Hops; hop++ {
 		idx := <-x.net.hopCh
 		synctest.Wait()
@@ -713,15 +911,35 @@ func (x *vfC19Run) run(t *testing.T) {
 		stage := fmt.Sprintf("after hop attempt #%d (creation %s)", hop, map[bool]string{true: "failed", false: "succeeded"}[h.fail[hop]])
 		x.round(stage)
 		sleptInInterval = 0
-		if h.MidRounds || x.r.Intn(4) == 0 {
-			sleptInInterval = 1 + time.Duration(x.r.Int63n(int64(min)-1))
-			time.Sleep(sleptInInterval)
-			synctest.Wait()
+		early := func() bool {
 			if got := len(x.net.attemptsCopy()); got != hop+1 {
 				x.viol("udphop:hop-gap-outside-interval", "a hop attempt happened %v after attempt #%d, before the minimum interval %v", sleptInInterval, hop, min)
+				return true
+			}
+			return false
+		}
+		// everything between two hops must fit below the minimum interval: budget = min-1
+		if x.wantDeadlineStep() {
+			sleptInInterval += x.deadlineStep(stage, (min-1)/2)
+			if early() {
+				return
+			}
+		}
+		if h.MidRounds || x.r.Intn(4) == 0 {
+			d := 1 + time.Duration(x.r.Int63n(int64(min-1-sleptInInterval)))
+			time.Sleep(d)
+			sleptInInterval += d
+			synctest.Wait()
+			if early() {
 				return
 			}
 			x.round(stage + fmt.Sprintf(" +%v", sleptInInterval))
+			if x.wantDeadlineStep() && min-1-sleptInInterval > 2 {
+				sleptInInterval += x.deadlineStep(stage+fmt.Sprintf(" +%v", sleptInInterval), (min-1-sleptInInterval)/2)
+				if early() {
+					return
+				}
+			}
 		}
 	}
 	x.closePhase(min, max, sleptInInterval)
@@ -889,6 +1107,9 @@ func (x *vfC19Run) cleanup() {
 			x.rd.abort()
 		}
 		close(x.rd.req)
+		if n := x.rd.overflow.Load(); n > 0 {
+			x.k.Inconclusive(fmt.Sprintf("%s: %d read results beyond the harness buffer were not examined", x.h.CaseID, n))
+		}
 	}
 	for _, s := range x.net.allSocks() {
 		s.forceClose()
@@ -922,7 +1143,7 @@ func vfC19RunHist(k *vfKit, t *testing.T, h *vfC19Hist) {
 	x := &vfC19Run{k: k, h: h, effI: [2]time.Duration{min, max}}
 	synctest.Test(t, func(t *testing.T) { x.run(t) })
 	if h.Hops > 0 {
-		k.Nontrivial(fmt.Sprintf("%s|%s|%d|%d|%d|%v|%d|%v|%v|%v", h.Host, h.Ports, h.MinNs, h.MaxNs, h.Hops, h.Fail, h.PreQueued, h.ReaderAtClose, h.CloseAtHop, h.MidRounds))
+		k.Nontrivial(fmt.Sprintf("%s|%s|%d|%d|%d|%v|%d|%v|%v|%v|%d", h.Host, h.Ports, h.MinNs, h.MaxNs, h.Hops, h.Fail, h.PreQueued, h.ReaderAtClose, h.CloseAtHop, h.MidRounds, h.DeadlineMode))
 	}
 }
 
@@ -940,7 +1161,7 @@ var vfC19Intervals = []vfC19Interval{
 }
 
 // variant fills the Close/round options of a history from its own PRNG.
-func vfC19Variant(r *rand.Rand, h *vfC19Hist) {
+func vfC19Variant(r *rand.Rand, h *vfC19Hist, quick bool) {
 	h.VSeed = r.Int63()
 	switch r.Intn(4) {
 	case 0:
@@ -949,18 +1170,39 @@ func vfC19Variant(r *rand.Rand, h *vfC19Hist) {
 		h.ReaderAtClose = true
 	}
 	h.MidRounds = r.Intn(3) == 0
+	// a deadline step costs > 2000 channel operations (the receive loops fill the 1024-slot queue
+	// with timeout results), so the quick tier does fewer of them
+	d := r.Intn(40)
+	switch {
+	case d == 0 || (!quick && d < 3):
+		h.DeadlineMode = 2
+	case d <= 6 || (!quick && d <= 24):
+		h.DeadlineMode = 1
+	}
 	if h.MinNs == h.MaxNs && r.Intn(3) == 0 {
 		h.CloseAtHop = true
 	}
 }
 
 func TestVerifC19HopEnum(t *testing.T) {
-	k := vfNewKit(t, "C19", "hop-enum")
+	// The passes are split over two go test children (VERIF_C19_ENUM=a: even passes, b: odd passes)
+	// so that they run in parallel; without the variable one child runs all of them.
+	half := os.Getenv("VERIF_C19_ENUM")
+	name := "hop-enum"
+	if half != "" {
+		name += "-" + half
+	}
+	k := vfNewKit(t, "C19", name)
 	defer k.Finish()
 	pcs := vfC19PortCfgs()
 	passes := k.N(2, 24)
 	const maxHops = 8
+	mine := 0
 	for pass := 0; pass < passes; pass++ {
+		if (half == "a" && pass%2 != 0) || (half == "b" && pass%2 != 1) {
+			continue
+		}
+		mine++
 		r := k.Rand(fmt.Sprintf("enum/%d", pass))
 		subsets := 0
 		for n := 0; n <= maxHops; n++ {
@@ -977,7 +1219,7 @@ func TestVerifC19HopEnum(t *testing.T) {
 						h.Fail = append(h.Fail, b+1)
 					}
 				}
-				vfC19Variant(r, h)
+				vfC19Variant(r, h, k.Quick())
 				vfC19RunHist(k, t, h)
 				subsets++
 				if (n == 3 && mask == 5) || (n == 8 && mask == 0xb6) {
@@ -985,12 +1227,12 @@ func TestVerifC19HopEnum(t *testing.T) {
 				}
 			}
 		}
-		if pass == 0 {
+		if mine == 1 {
 			k.Count("exhaustive_fault_subsets", int64(subsets))
 			k.Count("exhaustive_max_hops", maxHops)
 		}
 	}
-	k.Count("passes", int64(passes))
+	k.Count("passes", int64(mine))
 }
 
 func TestVerifC19HopLong(t *testing.T) {
@@ -1040,11 +1282,14 @@ func TestVerifC19HopLong(t *testing.T) {
 				h.Fail = append(h.Fail, a)
 			}
 		}
-		vfC19Variant(r, h)
+		vfC19Variant(r, h, k.Quick())
 		vfC19RunHist(k, t, h)
 		if i < 2 {
 			k.Sample(h)
 		}
+	}
+	if k.ReplayCase() == "" {
+		vfC19StaleTimeoutProbe(k, t, pcs[1])
 	}
 	// constructor edge: invalid interval configurations and a failing first socket leave nothing open
 	bad := []HopIntervalConfig{{Min: 10 * time.Second}, {Max: 10 * time.Second}, {Min: 30 * time.Second, Max: 10 * time.Second},
@@ -1089,6 +1334,83 @@ func TestVerifC19HopLong(t *testing.T) {
 			})
 		}
 	}
+}
+
+// vfC19StaleTimeoutProbe is an OBSERVATION, not a verdict. While a read deadline is expired each
+// receive loop keeps re-reading its socket and pushes one timeout result per read into the shared
+// receive queue until the queue (1024 slots) is full. If a packet arrives after the caller has
+// extended the deadline but before the caller has read those stale results, the receive loop finds
+// the queue full and drops the packet (the code's documented "queue is full, drop the packet" path).
+// C19's delivery clause is checked only with packets that arrive after the stale results were read
+// (deadlineStep); what happens in the other order is recorded here as counters and a sample.
+func vfC19StaleTimeoutProbe(k *vfKit, t *testing.T, pc *vfC19PortCfg) {
+	synctest.Test(t, func(t *testing.T) {
+		h := &vfC19Hist{CaseID: "probe/stale-timeouts", Host: pc.Host, Ports: pc.Expr, pc: pc, MinNs: int64(5 * time.Second), MaxNs: int64(5 * time.Second), Hops: 1}
+		x := &vfC19Run{k: k, h: h, r: rand.New(rand.NewSource(1))}
+		x.net = vfC19NewNet(nil)
+		addr := vfC19Resolve(k, pc, h)
+		if addr == nil {
+			return
+		}
+		pcn, err := NewUDPHopPacketConn(addr, HopIntervalConfig{Min: 5 * time.Second, Max: 5 * time.Second}, x.net.listen)
+		if err != nil {
+			t.Fatalf("C19 harness: %v", err)
+		}
+		x.u = pcn.(*udpHopPacketConn)
+		x.rd = &vfC19Reader{u: x.u, req: make(chan int), res: make(chan vfC19ReadRes, 1024)}
+		go x.rd.loop()
+		defer x.cleanup()
+		<-x.net.hopCh
+		<-x.net.hopCh // hop #1 at t=5s: socket #0 is now the previous socket
+		synctest.Wait()
+		_, prev := x.net.pair()
+		if prev == nil {
+			return
+		}
+		_ = x.u.SetReadDeadline(time.Now().Add(-time.Second)) // expired
+		synctest.Wait()
+		queued := len(x.u.recvQueue)
+		_ = x.u.SetReadDeadline(time.Time{}) // cleared
+		synctest.Wait()
+		tag := "probe-packet-on-previous-socket"
+		prev.inject([]byte(tag))
+		synctest.Wait()
+		got, timeouts := false, 0
+		for i := 0; i < 4; i++ { // one read at a time: every freed slot is refilled by a blocked receive loop
+			res, blocked := x.readN(1)
+			if blocked {
+				break
+			}
+			for _, r := range res {
+				if vfC19IsTimeout(r.err) {
+					timeouts++
+				} else if string(r.data) == tag {
+					got = true
+				}
+			}
+		}
+		x.rd.start(6000)
+		synctest.Wait()
+		if x.rd.busy.Load() {
+			x.rd.abort()
+		}
+		for _, r := range x.rd.drain() {
+			if vfC19IsTimeout(r.err) {
+				timeouts++
+			} else if string(r.data) == tag {
+				got = true
+			}
+		}
+		k.Count("probe_timeout_results_queued_by_one_expired_deadline", int64(queued))
+		k.Count("probe_stale_timeouts_read_after_deadline_cleared", int64(timeouts))
+		if got {
+			k.Count("probe_packet_before_stale_results_read_delivered", 1)
+		} else {
+			k.Count("probe_packet_before_stale_results_read_dropped", 1)
+		}
+		k.Sample(map[string]any{"observation": "not a verdict", "history": "hop #1 ok; SetReadDeadline(past); SetReadDeadline(zero); packet injected on previous socket; caller reads on",
+			"timeout_results_in_queue": queued, "stale_timeouts_read": timeouts, "packet_delivered": got})
+	})
 }
 
 // ---------------------------------------------------------------------------- concurrency
@@ -1162,8 +1484,8 @@ func vfC19RaceScenario(k *vfKit, t *testing.T, c *vfC19RaceCase, pc *vfC19PortCf
 	var readersExited, writersExited atomic.Int32
 
 	var injMu sync.Mutex
-	injected := map[string]bool{}     // tag -> injected after Close started
-	delivered := map[string]int{}     // tag -> times returned
+	injected := map[string]bool{} // tag -> injected after Close started
+	delivered := map[string]int{} // tag -> times returned
 	viol := func(key, format string, args ...any) { k.Violation(key, c, format, args...) }
 
 	// readers
